@@ -30,7 +30,7 @@ def cases(draw, tier):
         bw = draw(st.integers(1, 3))
         n = draw(st.integers(2 * bw, 12))
         m = (n + 1) ** 3
-        flat = draw(st.lists(st.integers(0, 3), min_size=m, max_size=m))
+        flat = draw(st.lists(st.integers(-1, 3), min_size=m, max_size=m))
         sc = {"cls": "TableChangeScore", "table": np.asarray(flat).reshape(n + 1, n + 1, n + 1).tolist()}
         X = [[0.0] * p for _ in range(n)]
     else:
@@ -39,7 +39,8 @@ def cases(draw, tier):
         nmax = 50 if tier == "quick" else 80
         n = D.weighted(draw, [(7, st.integers(2 * bw, max(2 * bw, nmax))), (2, st.integers(2 * bw, 2 * bw + 3)), (1, st.just(2 * bw))])
         if sc == "function":
-            sc = {"cls": "FunctionChangeScore", "key": draw(st.integers(0, 1000)), "modulus": draw(st.sampled_from([2, 3, 4]))}
+            sc = {"cls": "FunctionChangeScore", "key": draw(st.integers(0, 1000)), "modulus": draw(st.sampled_from([2, 3, 4])),
+                  "offset": draw(st.sampled_from([0, 0, 1, 2]))}
             X = [[0.0] * p for _ in range(n)]
         else:
             X, _ = draw(D.structured_matrix(n, p, boundary_positions=(bw, n - bw)))
